@@ -4,7 +4,6 @@ enum UR<T> { Ok(T, SS), Err }
 
 spec fn unseen(dm: DM, seen: SS) -> nat { dm.dom().difference(seen).len() }
 
-spec fn is_placeholder(e: J) -> bool { e is Obj && j_has(e->Obj_0, K_DOTS()) }
 
 spec fn u_val(j: J, dm: DM, seen: SS) -> UR<J>
     decreases unseen(dm, seen), j, 0nat via u_val_dec
@@ -134,13 +133,6 @@ proof fn lemma_unseen_insert(dm: DM, seen: SS, s: Seq<char>)
 {
     assert(dm.dom().difference(seen.insert(s)) =~= dm.dom().difference(seen).remove(s));
     assert(dm.dom().difference(seen).contains(s));
-}
-proof fn lemma_j_idx(s: Seq<(Seq<char>, J)>, k: Seq<char>)
-    ensures j_has(s, k) ==> 0 <= j_idx(s, k) < s.len() && s[j_idx(s, k)].0 == k,
-        j_idx(s, k) >= -1,
-    decreases s.len()
-{
-    if s.len() > 0 && s[0].0 != k { lemma_j_idx(s.drop_first(), k); }
 }
 #[via_fn]
 proof fn u_val_dec(j: J, dm: DM, seen: SS) {
